@@ -10,6 +10,7 @@
 package c07
 
 import (
+	"encoding"
 	"bytes"
 	stdjson "encoding/json"
 	"encoding/json"
@@ -42,6 +43,21 @@ type Case struct {
 	Text    string   `json:"text,omitempty"`
 }
 
+// narrow named scalars that implement encoding.TextUnmarshaler (a JSON null must not touch them)
+type tu1 uint8
+type ti1 int8
+type tu2 uint16
+type tu4 uint32
+type tf4 float32
+
+func (t *tu1) UnmarshalText(b []byte) error { *t = tu1(len(b)); return nil }
+func (t *ti1) UnmarshalText(b []byte) error { *t = ti1(len(b)); return nil }
+func (t *tu2) UnmarshalText(b []byte) error { *t = tu2(len(b)); return nil }
+func (t *tu4) UnmarshalText(b []byte) error { *t = tu4(len(b)); return nil }
+func (t *tf4) UnmarshalText(b []byte) error { *t = tf4(len(b)); return nil }
+
+var textUnmarshalerT = reflect.TypeOf((*encoding.TextUnmarshaler)(nil)).Elem()
+
 type s12 struct{ A, B, C uint32 }
 type s64 struct{ A, B, C, D, E, F, G, H int64 }
 
@@ -53,6 +69,15 @@ var kindTypes = map[string][]reflect.Type{
 	"s8":    {reflect.TypeOf(int64(0)), reflect.TypeOf(float64(0)), reflect.TypeOf((*int)(nil)), reflect.TypeOf(map[string]int(nil)), reflect.TypeOf(uint(0))},
 	"hdr16": {reflect.TypeOf(""), reflect.TypeOf((*interface{})(nil)).Elem(), reflect.TypeOf(gojson.Number(""))},
 	"hdr24": {reflect.TypeOf([]int(nil)), reflect.TypeOf([]byte(nil)), reflect.TypeOf([]string(nil)), reflect.TypeOf(gojson.RawMessage(nil))},
+	// ",string" members (the tag is added in build)
+	"q1": {reflect.TypeOf(int8(0)), reflect.TypeOf(uint8(0)), reflect.TypeOf(false)},
+	"q2": {reflect.TypeOf(uint16(0)), reflect.TypeOf(int16(0))},
+	"q4": {reflect.TypeOf(float32(0)), reflect.TypeOf(int32(0)), reflect.TypeOf(uint32(0))},
+	"q8": {reflect.TypeOf(int64(0)), reflect.TypeOf(float64(0)), reflect.TypeOf(uint64(0))},
+	// narrow TextUnmarshaler values
+	"t1":    {reflect.TypeOf(tu1(0)), reflect.TypeOf(ti1(0))},
+	"t2":    {reflect.TypeOf(tu2(0))},
+	"t4":    {reflect.TypeOf(tu4(0)), reflect.TypeOf(tf4(0))},
 	"a2x1":  {reflect.TypeOf([2]uint8{}), reflect.TypeOf([2]bool{}), reflect.TypeOf([2]int8{})},
 	"a3x1":  {reflect.TypeOf([3]int8{}), reflect.TypeOf([3]uint8{})},
 	"a4x1":  {reflect.TypeOf([4]uint8{}), reflect.TypeOf([4]bool{})},
@@ -76,7 +101,11 @@ func build(layout []string, variant int) (reflect.Type, []int) {
 		fs = append(fs, reflect.StructField{Name: fmt.Sprintf("G%d", i), Type: guardT, Tag: `json:"-"`})
 		ts := kindTypes[k]
 		fidx = append(fidx, len(fs))
-		fs = append(fs, reflect.StructField{Name: fmt.Sprintf("F%d", i+1), Type: ts[(variant+i)%len(ts)], Tag: reflect.StructTag(fmt.Sprintf(`json:"f%d"`, i+1))})
+		opt := ""
+		if k[0] == 'q' {
+			opt = ",string"
+		}
+		fs = append(fs, reflect.StructField{Name: fmt.Sprintf("F%d", i+1), Type: ts[(variant+i)%len(ts)], Tag: reflect.StructTag(fmt.Sprintf(`json:"f%d%s"`, i+1, opt))})
 	}
 	fs = append(fs, reflect.StructField{Name: fmt.Sprintf("G%d", len(layout)), Type: guardT, Tag: `json:"-"`})
 	return reflect.StructOf(fs), fidx
@@ -211,6 +240,13 @@ func document(t reflect.Type, fidx []int, doc []string, truncate bool) string {
 			}
 		default:
 			v = validJSON(ft, -1)
+		}
+		if a != "null" && a != "wrongkind" {
+			if reflect.PtrTo(ft).Implements(textUnmarshalerT) && ft.Kind() != reflect.Struct && ft.Kind() != reflect.String && ft.Kind() != reflect.Slice {
+				v = `"abc"`
+			} else if strings.Contains(string(t.Field(fidx[i]).Tag), ",string") {
+				v = `"` + v + `"`
+			}
 		}
 		parts = append(parts, fmt.Sprintf(`"f%d":%s`, i+1, v))
 	}
